@@ -65,6 +65,7 @@ def run(ctx: Ctx, chk) -> None:
     chk.floor(rule, "open() sites in Persistence", n, 2)
     inplace2(ctx, chk)
     chk.run_rule(load_guard, ctx)
+    chk.run_rule(inplace3, ctx)
     # replace targets
     for fl in pers.methods.values():
         for f in fl:
@@ -77,6 +78,65 @@ def run(ctx: Ctx, chk) -> None:
                         chk.ok(rule, fkey(f, node), "replace onto the live path", ctx.loc(f, node))
                     else:
                         chk.refute(rule, fkey(f, node), f"`{norm(node)}` does not move the new file onto the live path", ctx.loc(f, node))
+
+
+def inplace3(ctx: Ctx, chk) -> None:
+    rule = "INPLACE-3"
+    chk.rule(rule, "the text written into the (already truncated) persistence file can always be encoded: either json.dumps escapes everything outside ASCII (ensure_ascii left at its default), or the file is opened with an explicit Unicode encoding - otherwise one non-ASCII sketch name or value raises UnicodeEncodeError after the truncation and the saved registry is gone")
+    pers = ctx.cls(PERS)
+    save = pers.find_method("save")
+    if save is None:
+        raise AnalysisError("anchor vanished: Persistence.save")
+    fi = ctx.inl(save)
+    dumps = [n for n in ctx.own_nodes(fi) if isinstance(n, ast.Call) and norm(n.func).endswith("dumps")]
+    opens = [n for n in ctx.own_nodes(fi) if isinstance(n, ast.Call) and any(o in callee_names(ctx, save, n) for o in OPENERS)]
+    if len(dumps) != 1 or len(opens) != 1:
+        raise AnalysisError(f"INPLACE-3: expected one json.dumps and one open() in Persistence.save, found {len(dumps)} / {len(opens)}")
+    d, o = dumps[0], opens[0]
+    opts = {}
+    for kw in d.keywords:
+        if kw.arg is not None:
+            opts[kw.arg] = kw.value
+        else:
+            # **OPTIONS: a constant dict
+            try:
+                v = ctx.folder.fold(save.module, kw.value)
+            except Unfoldable:
+                raise AnalysisError(f"INPLACE-3: cannot fold `**{norm(kw.value)}` of json.dumps") from None
+            if not isinstance(v, dict):
+                raise AnalysisError(f"INPLACE-3: `**{norm(kw.value)}` is not a constant mapping")
+            for k_, v_ in v.items():
+                opts[k_] = ast.Constant(value=ctx.folder.plain(v_))
+    ascii_only = True
+    if "ensure_ascii" in opts:
+        ea = opts["ensure_ascii"]
+        try:
+            ascii_only = bool(ctx.folder.plain(ctx.folder.fold(save.module, ea))) if not isinstance(ea, ast.Constant) else bool(ea.value)
+        except Unfoldable:
+            ascii_only = False
+    enc = None
+    pos = ("file", "mode", "buffering", "encoding")
+    for i, a in enumerate(o.args):
+        if i < len(pos) and pos[i] == "encoding":
+            enc = a
+    for kw in o.keywords:
+        if kw.arg == "encoding":
+            enc = kw.value
+    enc_v = None
+    if enc is not None:
+        try:
+            enc_v = ctx.folder.plain(ctx.folder.fold(save.module, enc))
+        except Unfoldable:
+            enc_v = "?"
+    chk.instance(rule)
+    key = f"{save.fq}::encodable"
+    unicode_enc = isinstance(enc_v, str) and enc_v.lower().replace("-", "").replace("_", "") in ("utf8", "utf8sig", "utf16", "utf32", "utf16le", "utf16be")
+    if ascii_only:
+        chk.ok(rule, key, "json.dumps writes pure ASCII: encodable under every text encoding", ctx.loc(save, d))
+    elif unicode_enc:
+        chk.ok(rule, key, f"non-ASCII text is written, the file is opened with encoding={enc_v!r}", ctx.loc(save, o))
+    else:
+        chk.refute(rule, key, f"json.dumps is told not to escape non-ASCII text (ensure_ascii false) but `{norm(o)[:60]}` opens the file with {'the locale default encoding' if enc_v is None else repr(enc_v)}: under a non-Unicode locale a single non-ASCII character makes the write fail after the file was truncated - the previously saved registry is destroyed without any crash", ctx.loc(save, d))
 
 
 def load_guard(ctx: Ctx, chk) -> None:
@@ -98,6 +158,28 @@ def load_guard(ctx: Ctx, chk) -> None:
     savers = [n for n in g.nodes if has_call(n, ("self.persistence.stop", "self.persistence.save"))]
     if not loads:
         raise AnalysisError("LOAD-GUARD: persistence.load() not found in Gateway.__aenter__")
+    # stop / save handed to something as a callback (exit stack, add_done_callback, finalizer ...) before the load:
+    # whoever holds the callback runs it when the load fails
+    def registers(n) -> bool:
+        if n.ast is None or n.kind not in ("stmt", "test", "with-enter"):
+            return False
+        for p_ in n.parts():
+            for x in ast.walk(p_):
+                if isinstance(x, ast.Attribute) and norm(x) in ("self.persistence.stop", "self.persistence.save"):
+                    par = ctx.prog.parents.get(x)
+                    if not (isinstance(par, ast.Call) and par.func is x):
+                        return True
+        return False
+
+    regs = [n for n in g.nodes if registers(n)]
+    for rg in regs:
+        chk.instance(rule)
+        key = fkey(f, rg.ast) + "::callback-before-load"
+        p = g.reach_avoiding([rg], lambda x: x in loads, lambda x: False)
+        if p is None:
+            chk.ok(rule, key, "registered only after the load completed", ctx.loc(f, rg.ast))
+        else:
+            chk.refute(rule, key, f"`{rg.text()[:70]}` hands persistence.stop/save to a callback holder before persistence.load() has succeeded: when the load fails the callback runs and saves the registry as loaded so far over the file that could not be read", ctx.loc(f, rg.ast))
     for ld in loads:
         chk.instance(rule)
         key = f"{f.fq}::load-failure"
